@@ -282,7 +282,7 @@ def generate(rng):
         g.lookups_after("live", suffix)
     suffix.append({"op": "readback"})
     return {
-        "cfg": {"prune": prune, "cache": cache, "probe": [hx(x) for x in probes[:40]]},
+        "cfg": {"prune": prune, "cache": cache, "rc": rng.choice(["defaultdict", "defaultdict", "counter"]), "probe": [hx(x) for x in probes[:40]]},
         "prefix": prefix,
         "ops": ops,
         "suffix": suffix,
@@ -310,7 +310,7 @@ def explore(rng, st):
     st.nontrivial = bool(st.info.get("commit_changed"))
     # 2. client exception after every position
     for p in range(k + 1):
-        for flavour in ("E", "B", "G"):
+        for flavour in ("E", "B", "G", "F"):
             execute(variant(base, (p, [{"op": "babort", "exc": flavour}])), st)
         st.probe("abort-after-0-ops" if p == 0 else ("abort-after-all-ops" if p == k else "abort-mid-batch"))
     # 3. the p-th batch operation raises and the client does not catch it
